@@ -239,7 +239,15 @@ func (d *Del) whyOpt(c certainty, lo, hi time.Time, noOrder bool) string {
 }
 
 // dlVoid: the subscription has a dead-letter policy whose topic was deleted.
-func (s *Sub) dlVoid() bool { return s.Cfg.DLTopic != nil && !s.Cfg.DLTopic.Live }
+// This used to be treated as unspecified (whether the policy survived depended on
+// whether prune-deleted-topics had removed the topic row and the foreign key had
+// silently cleared the policy). Since the repair of that defect (/repo 5524a1e)
+// the row stays while a live subscription refers to it, and the behaviour is
+// definite: the message is retired after its N deliveries and forwarded to
+// nobody - not even to live subscriptions of the deleted topic (forward() does
+// exactly that for a topic that is not live). Kept as a named predicate, always
+// false, so that the call sites read as before.
+func (s *Sub) dlVoid() bool { return false }
 
 func (s *Sub) everDL(t *Topic) bool { return s.Cfg.DLTopic == t || s.DLEver[t] }
 
